@@ -26,7 +26,8 @@ type c16Word struct {
 	Hold   string            `json:"hold,omitempty"` // the item also holds an attribute of this name (the word itself, same spelling)
 }
 
-var c16Values = map[string]model.AV{":v": model.Str("a"), ":a": model.Str("a"), ":b": model.Str("b"), ":n": model.Num("1"), ":t": model.Str("S"), ":s": model.StrSet("x")}
+var c16Values = map[string]model.AV{":v": model.Str("a"), ":a": model.Str("a"), ":b": model.Str("b"), ":n": model.Num("1"), ":t": model.Str("S"), ":s": model.StrSet("x"),
+	":ns": model.NumSet("1"), ":bs": model.BinSet([]byte{1})}
 
 // c16Positions: every bare-name position; %s is the name.
 var c16CondPositions = []string{
@@ -47,6 +48,7 @@ var c16Items = []model.Item{
 var c16NestedCondPositions = []string{"m.%s = :v", "attribute_exists(m.%s)", "m.%s.k = :v"}
 var c16UpdatePositions = []string{
 	"SET %s = :v", "REMOVE %s", "ADD %s :n", "DELETE %s :s", "SET a = %s", "SET a = if_not_exists(%s, :v)", "SET %s.k = :v", "SET a = :v, %s = :v", "SET a = :v REMOVE %s",
+	"ADD %s :s", "ADD %s :ns", "ADD %s :bs", "DELETE %s :ns", "DELETE %s :bs", "SET a = :v ADD %s :bs", "ADD zz :n, %s :ns",
 }
 
 func caseVariants(w string) []string {
@@ -370,6 +372,30 @@ func TestC16(t *testing.T) {
 				}
 				record(op, class)
 			},
+			"strayPlaceholders": func(rt *rapid.T) {
+				// names and / or values supplied to a request that has no expression at all
+				op := model.Op{Table: s.Table}
+				switch rapid.IntRange(0, 3).Draw(rt, "strayCarrier") {
+				case 0:
+					op.Kind, op.Item = "Put", g.item(rt)
+				case 1:
+					op.Kind, op.Key = "Delete", g.key(rt)
+				case 2:
+					op.Kind = "Scan"
+				default:
+					op.Kind, op.Key = "Get", g.key(rt)
+				}
+				class := "no-expression-no-placeholders"
+				if op.Kind != "Get" && rapid.Bool().Draw(rt, "strayValue") {
+					op.Values = map[string]model.AV{rapid.SampledFrom([]string{":v", ":0", ":_"}).Draw(rt, "strayValueKey"): model.Str("a")}
+					class = "stray-placeholders-without-expression"
+				}
+				if rapid.Bool().Draw(rt, "strayName") {
+					op.Names = map[string]string{rapid.SampledFrom([]string{"#a", "#0", "#_"}).Draw(rt, "strayNameKey"): "a"}
+					class = "stray-placeholders-without-expression"
+				}
+				record(op, class)
+			},
 			"reservedHistory": func(rt *rapid.T) {
 				// a reserved word used legally behind an alias and illegally as a bare name on
 				// one table, in either order: the verdict on one use never depends on the other
@@ -465,7 +491,17 @@ func TestC16(t *testing.T) {
 					tb2.Reqs = append(tb2.Reqs, model.WriteReq{Neither: true})
 					class = "write-request-neither"
 				case 1:
-					tb2.Reqs = append(tb2.Reqs, model.WriteReq{Both: true, Put: model.Item{"pk": model.Str("both")}, Delete: model.Item{"pk": model.Str("both")}})
+					// (both members present; one of them may be empty)
+					both := model.WriteReq{Both: true, Put: model.Item{"pk": model.Str("both")}, Delete: model.Item{"pk": model.Str("both")}}
+					switch rapid.IntRange(0, 4).Draw(rt, "bothShape") {
+					case 1:
+						both.Delete = nil
+					case 2:
+						both.Delete = model.Item{}
+					case 3:
+						both.Put = nil
+					}
+					tb2.Reqs = append(tb2.Reqs, both)
 					class = "write-request-both"
 				}
 				if len(tb1.Reqs) > 0 {
